@@ -31,7 +31,7 @@ func isStripped(info *types.Info, fd *ast.FuncDecl, e ast.Expr) bool {
 	}
 	if call, ok := e.(*ast.CallExpr); ok {
 		if fn, ok := typeutil.Callee(info, call).(*types.Func); ok {
-			if fn.Name() == "stripVendorPath" {
+			if fn.Name() == "stripVendorPath" || (stripProg != nil && IsCanonicaliser(stripProg, fn)) {
 				return true
 			}
 			// a moq helper all of whose results are canonical paths (importPath(pkg) = stripVendorPath(pkg.Path()))
@@ -319,7 +319,7 @@ func fromUniqueName(info *types.Info, fd *ast.FuncDecl, e ast.Expr) bool {
 		if !ok {
 			return false
 		}
-		if fn.Name() == "uniqueName" {
+		if fn.Name() == "uniqueName" || isUniqueNameRole(fn) {
 			return true
 		}
 		// a moq helper that returns one of its string parameters, possibly numbered, when every call
@@ -1044,4 +1044,87 @@ func reachableFrom(prog *load.Program, fn *types.Func) map[*types.Func]bool {
 		work = append(work, graph[f]...)
 	}
 	return out
+}
+
+// IsCanonicaliser: by role, the registry's path canonicaliser — an unexported function from string to
+// string whose body mentions a constant containing "vendor".
+func IsCanonicaliser(prog *load.Program, fn *types.Func) bool {
+	if fn == nil || fn.Pkg() == nil || fn.Pkg().Path() != load.PkgRegistry {
+		return false
+	}
+	sig, _ := fn.Type().(*types.Signature)
+	if sig == nil || sig.Recv() != nil || sig.Params().Len() != 1 || sig.Results().Len() != 1 {
+		return false
+	}
+	isStr := func(t types.Type) bool {
+		b, ok := t.Underlying().(*types.Basic)
+		return ok && b.Info()&types.IsString != 0
+	}
+	if !isStr(sig.Params().At(0).Type()) || !isStr(sig.Results().At(0).Type()) {
+		return false
+	}
+	d := prog.Decl(fn.Origin())
+	if d == nil || d.Body == nil {
+		return false
+	}
+	info := prog.Info(fn.Pkg())
+	found := false
+	ast.Inspect(d.Body, func(n ast.Node) bool {
+		if e, ok := n.(ast.Expr); ok {
+			if tv, ok := info.Types[e]; ok && tv.Value != nil && tv.Value.Kind() == constant.String && strings.Contains(constant.StringVal(tv.Value), "vendor") {
+				found = true
+			}
+		}
+		return !found
+	})
+	return found
+}
+
+// isUniqueNameRole: a method of registry.Package from a level (int) to a name (string).
+func isUniqueNameRole(fn *types.Func) bool {
+	sig, _ := fn.Type().(*types.Signature)
+	if sig == nil || sig.Recv() == nil || sig.Params().Len() != 1 || sig.Results().Len() != 1 {
+		return false
+	}
+	if !strings.HasSuffix(types.TypeString(sig.Recv().Type(), nil), load.PkgRegistry+".Package") {
+		return false
+	}
+	pb, ok1 := sig.Params().At(0).Type().Underlying().(*types.Basic)
+	rb, ok2 := sig.Results().At(0).Type().Underlying().(*types.Basic)
+	return ok1 && ok2 && pb.Info()&types.IsInteger != 0 && rb.Info()&types.IsString != 0
+}
+
+// QualifierSearch finds, by role, the registry function that looks an import up by its qualifier: reachable
+// from AddImport, one string parameter, a *Package (and possibly a bool) as result.
+func QualifierSearch(prog *load.Program) *types.Func {
+	if fn := prog.LookupFunc(load.PkgRegistry, "Registry.searchImport"); fn != nil {
+		return fn
+	}
+	reach := reachableFrom(prog, prog.LookupFunc(load.PkgRegistry, "Registry.AddImport"))
+	var cands []*types.Func
+	for fn := range reach {
+		if fn.Pkg() == nil || fn.Pkg().Path() != load.PkgRegistry {
+			continue
+		}
+		sig, _ := fn.Type().(*types.Signature)
+		if sig == nil || sig.Params().Len() != 1 || sig.Results().Len() == 0 || sig.Results().Len() > 2 {
+			continue
+		}
+		if b, ok := sig.Params().At(0).Type().Underlying().(*types.Basic); !ok || b.Info()&types.IsString == 0 {
+			continue
+		}
+		if !strings.HasSuffix(types.TypeString(sig.Results().At(0).Type(), nil), load.PkgRegistry+".Package") {
+			continue
+		}
+		// prefer methods of Registry
+		if sig.Recv() != nil && strings.HasSuffix(types.TypeString(sig.Recv().Type(), nil), ".Registry") {
+			return fn
+		}
+		cands = append(cands, fn)
+	}
+	if len(cands) > 0 {
+		sort.Slice(cands, func(i, j int) bool { return cands[i].Pos() < cands[j].Pos() })
+		return cands[0]
+	}
+	return nil
 }
